@@ -243,19 +243,30 @@ class StmtMixin:
             raise Unsupported("forking index expression", node)
         return r[0][1]
 
+    def _branch(self, node, taken):
+        """diagnostic (PYVC_BRANCHES=1): which branches of which `if` were executed symbolically under which top-level contract"""
+        cov = getattr(self, "branch_cov", None)
+        if cov is not None and self.cur_fi is not None:
+            key = (getattr(self, "top_func", "?"), self.cur_fi.module.relpath, self.cur_fi.qual, node.lineno, ast.unparse(node.test)[:70])
+            cov.setdefault(key, set()).add(taken)
+
     def st_If(self, node, st):
         out = []
         for s, c in self.ev(node.test, st):
             ct = z3.simplify(self.truth(c, s))
             if z3.is_true(ct):
+                self._branch(node, True)
                 out.extend(self.exec_block(node.body, s)); continue
             if z3.is_false(ct):
+                self._branch(node, False)
                 out.extend(self.exec_block(node.orelse, s)); continue
             sa = s.fork().assume(ct)
             sb = s.fork().assume(z3.Not(ct))
             if feasible(sa.pc):
+                self._branch(node, True)
                 out.extend(self.exec_block(node.body, sa))
             if feasible(sb.pc):
+                self._branch(node, False)
                 out.extend(self.exec_block(node.orelse, sb))
         return out
 
